@@ -24,6 +24,7 @@ Lemma cl_guard_steal : fact_steal_guarded = true. Proof. reflexivity. Qed.
 Lemma cl_active_queue_sets_panicked : fact_active_queue_sets_panicked = true. Proof. reflexivity. Qed.
 (* capacity is restored: finished threads are reaped before the dormant scan and a thread may be spawned below the maximum *)
 Lemma cl_dormant_reaps_first : fact_dormant_reaps_first = true. Proof. reflexivity. Qed.
+Lemma cl_reap_tests_only_is_finished : fact_reap_tests_only_is_finished = true. Proof. reflexivity. Qed.
 Lemma cl_spawn_cmp : fact_spawn_cmp = CLt. Proof. reflexivity. Qed.
 Lemma cl_retry_after_spawn : fact_schedule_thread_retries_after_spawn = true. Proof. reflexivity. Qed.
 
